@@ -30,6 +30,7 @@ RULE = (
     ' Sets of mutually unorderable items (strings, numbers, None, tuples, bytes) are passed to contracts with the d'
     'efault a_repr (compared with the reference modulo item order); no entry may be keyed by a name that only the b'
     'uiltins module provides (NotImplemented, Ellipsis, __debug__ included).'
+    ' Among the arguments that must never be listed: a memoized function (functools.lru_cache) and raw staticmethod / classmethod objects.'
 )
 ASSUMPTIONS = ["values whose own repr embeds a memory address or iterates a set are not generated"]
 
